@@ -23,15 +23,15 @@ def nontrivial(chk, st, rid, evs):
 
 def run(chk):
     # the attempt table is finite and enumerated completely in both tiers; thorough adds the assertion-free build and more instances
-    plan = [dict(flavour="asan-ubsan", exe="record_proto", scen="invalid", runs=(400, 400), opts={}),
+    plan = [dict(flavour="asan-ubsan", exe="record_proto", scen="invalid", runs=(700, 700), opts={}),
             # random histories of the 14 public mutators with valid and invalid arguments: refused iff invalid, a refused call changes nothing
             dict(flavour="asan-ubsan", exe="record_proto", scen="api", runs=(300, 8000), opts={})]
     if not chk.quick:
-        plan.append(dict(flavour="rel", exe="record_proto", scen="invalid", runs=(400, 400), opts={}))
-        plan.append(dict(flavour="dbg", exe="record_proto", scen="invalid", runs=(400, 400), opts={}))
+        plan.append(dict(flavour="rel", exe="record_proto", scen="invalid", runs=(700, 700), opts={}))
+        plan.append(dict(flavour="dbg", exe="record_proto", scen="invalid", runs=(700, 700), opts={}))
     run_plan(chk, "C19", plan, nontrivial)
     chk.cov["rule"] = ("complete table of invalid-input attempts, one per forked execution under ASan+UBSan: efforts -16..32 and random 32-bit values for "
-                       "ColoquinteParameters and -3..12 for the stage parameter constructors; each of 38 parameter fields outside / at / inside each bound of "
+                       "ColoquinteParameters and -3..12 for the stage parameter constructors; each of 38 parameter fields outside (by a step, by a hair, by a lot, and exactly zero) / at / inside each bound of "
                        "its documented range (check() outcome, and a legalize call with it must be rejected before any callback and leave the circuit "
                        "unchanged); 11 vector setters x lengths n-1, n+1, 0; addNet/setNets with pins -1, n, n+7 and inconsistent lengths; the expected "
                        "outcome of every attempt is computed by TLC from the contract (PlaceAPI.tla); plus random histories of the 14 public mutators with valid and invalid "
